@@ -19,6 +19,23 @@
       x/exchange/market.go   Market.Validate: only the required-attribute rule (ValidateReqAttrs)
       x/exchange/keeper/market.go  UpdateMarketAcceptingOrders / UpdateUserSettlementAllowed /
           UpdateMarketAcceptingCommitments (effect on the three flags only)
+      cosmos-sdk types/coin.go  Coin.Validate / Coins.Validate (amount and order rules; denoms
+          are assumed syntactically valid)
+      x/exchange/msgs.go, orders.go  the fee / price rules of MsgCreateAsk/CreateBid/CommitFunds/
+          FillBids/FillAsks ValidateBasic (AskOrder.Validate, BidOrder.Validate, validateCoin)
+      x/exchange/msgs.go  MsgGovManageFeesRequest.ValidateBasic (+ ValidateAddRemoveFeeOptions,
+          ValidateFeeOptions, ValidateSellerFeeRatios, ValidateBuyerFeeRatios,
+          ValidateDisjointFeeRatios, ValidateBips, FeeRatio.Validate of x/exchange/market.go),
+          MsgMarketManageReqAttrsRequest.ValidateBasic (+ ValidateAddRemoveReqAttrs)
+      x/exchange/keeper/market.go  UpdateFees (updateFlatFees / updateFeeRatios /
+          updateCommitmentSettlementBips on the keyed store), UpdateReqAttrs (normalisation, error
+          accumulation; a message with any error changes nothing: the handler's error rolls the
+          store back), MsgServer.GovManageFees (no market-existence check), MsgServer.MarketManageReqAttrs
+      x/exchange/keeper/grpc_query.go  OrderFeeCalc (+ calculateSellerSettlementRatioFee,
+          getBuyerSettlementFeeRatiosForPriceDenom, calcBuyerSettlementRatioFeeOptions),
+          CommitmentSettlementFeeCalc / Keeper.CalculateCommitmentSettlementFee (control flow; the
+          arithmetic is [commitment_fee] of Exchange/Arith.v), MsgServer.MarketCommitmentSettle
+          (the fee step after SettleCommitments)
 
     A market's fee options live in the store keyed by denom (flat) or by price denom + fee denom
     (ratios): they are modelled as association lists looked up by key.  Assumed (enforced by
@@ -182,13 +199,26 @@ Record market := {
   m_accepting_commitments : bool;
   m_req_ask : list string;
   m_req_bid : list string;
-  m_req_com : list string
+  m_req_com : list string;
+  m_bips : Z;                      (* commitment settlement bips, 0 = none *)
+  m_interm : string                (* intermediary denom, "" = none *)
 }.
 
-(** What the store holds of a market after MsgGovCreateMarket: the fee tables and flags as given,
-    the three required-attribute lists normalised. *)
+(** The store does not keep the text of the required attributes as given: [clear_reqs] is the part
+    of a configuration that is stored verbatim. *)
+Definition clear_reqs (m : market) : market :=
+  {| m_create_ask := m_create_ask m; m_create_bid := m_create_bid m; m_create_com := m_create_com m;
+     m_seller_flat := m_seller_flat m; m_seller_ratios := m_seller_ratios m;
+     m_buyer_flat := m_buyer_flat m; m_buyer_ratios := m_buyer_ratios m;
+     m_accepting_orders := m_accepting_orders m; m_user_settle := m_user_settle m;
+     m_accepting_commitments := m_accepting_commitments m;
+     m_req_ask := []; m_req_bid := []; m_req_com := [];
+     m_bips := m_bips m; m_interm := m_interm m |}.
+
+(** What the store holds of a market after MsgGovCreateMarket: the fee tables, flags, bips and
+    intermediary denom as given, the three required-attribute lists normalised. *)
 Record stored := {
-  s_mkt : market;                 (* fee tables and flags *)
+  s_mkt : market;                 (* fee tables, flags, bips, intermediary denom; no attribute text *)
   s_req_ask : list bytes;
   s_req_bid : list bytes;
   s_req_com : list bytes
@@ -205,7 +235,7 @@ Definition create_market (m : market) : option stored :=
     let '(nb, okb) := normalize_req_attrs rb in
     let '(nc, okc) := normalize_req_attrs rc in
     if oka && okb && okc then
-      Some {| s_mkt := m; s_req_ask := na; s_req_bid := nb; s_req_com := nc |}
+      Some {| s_mkt := clear_reqs m; s_req_ask := na; s_req_bid := nb; s_req_com := nc |}
     else None
   else None.
 
@@ -216,22 +246,57 @@ Definition set_flags (m : market) (ao us ac : bool) : market :=
      m_seller_flat := m_seller_flat m; m_seller_ratios := m_seller_ratios m;
      m_buyer_flat := m_buyer_flat m; m_buyer_ratios := m_buyer_ratios m;
      m_accepting_orders := ao; m_user_settle := us; m_accepting_commitments := ac;
-     m_req_ask := m_req_ask m; m_req_bid := m_req_bid m; m_req_com := m_req_com m |}.
+     m_req_ask := m_req_ask m; m_req_bid := m_req_bid m; m_req_com := m_req_com m;
+     m_bips := m_bips m; m_interm := m_interm m |}.
 Definition set_flags_stored (s : stored) (ao us ac : bool) : stored :=
   {| s_mkt := set_flags (s_mkt s) ao us ac;
      s_req_ask := s_req_ask s; s_req_bid := s_req_bid s; s_req_com := s_req_com s |}.
 
+(** ** sdk.Coin / sdk.Coins validity (amount and order rules) *)
+Definition coin_nonneg (c : coin) : bool := 0 <=? amt_of c.     (* Coin.Validate *)
+Definition coin_pos (c : coin) : bool := 0 <? amt_of c.          (* Coin.Validate and not IsZero *)
+
+(** Coins.Validate: every amount positive, denoms strictly ascending (byte order). *)
+Fixpoint coins_ascending (low : string) (l : list coin) : bool :=
+  match l with
+  | [] => true
+  | c :: r => String.ltb low (denom_of c) && coin_pos c && coins_ascending (denom_of c) r
+  end.
+Definition coins_valid (l : list coin) : bool :=
+  match l with
+  | [] => true
+  | c :: r => coin_pos c && coins_ascending (denom_of c) r
+  end.
+
+Definition opt_ok (f : coin -> bool) (o : option coin) : bool :=
+  match o with None => true | Some c => f c end.
+
 (** ** Requests *)
+(** The two fill requests carry [orders_ok]: whether the order ids of the request name existing
+    orders of the other kind in this market that belong to someone else and add up to the stated
+    total (getBidOrders / getAskOrders and the total comparison); [prices] of [AFillBids] is the
+    sum of the bid prices, one coin per denom. *)
 Inductive action :=
 | ACreateAsk (price : coin) (settle_flat : option coin) (creation_fee : option coin)
 | ACreateBid (price : coin) (settle_fees : list coin) (creation_fee : option coin)
 | ACommit (creation_fee : option coin)
-| AFillBids (bids_price : coin) (settle_flat : option coin) (creation_fee : option coin)
-| AFillAsks (total_price : coin) (settle_fees : list coin) (creation_fee : option coin).
+| AFillBids (orders_ok : bool) (prices : list coin) (settle_flat : option coin) (creation_fee : option coin)
+| AFillAsks (orders_ok : bool) (total_price : coin) (settle_fees : list coin) (creation_fee : option coin).
 
-(** The admission decision: [mk] is the stored market ([None]: the market id is unknown), [accs] the
-    names of the attributes on the requesting account.  The order of the conjuncts is the order
-    of the checks in the Go code (irrelevant for the boolean, kept for readability). *)
+(** The fee / price part of the five ValidateBasic methods. *)
+Definition msg_basic (a : action) : bool :=
+  match a with
+  | ACreateAsk price sflat cfee => coin_pos price && opt_ok coin_pos sflat && opt_ok coin_nonneg cfee
+  | ACreateBid price sfees cfee => coin_pos price && coins_valid sfees && opt_ok coin_nonneg cfee
+  | ACommit cfee => opt_ok coin_nonneg cfee
+  | AFillBids _ _ sflat cfee => opt_ok coin_pos sflat && opt_ok coin_pos cfee
+  | AFillAsks _ tprice sfees cfee => coin_pos tprice && coins_valid sfees && opt_ok coin_pos cfee
+  end.
+
+(** The admission decision after ValidateBasic: [mk] is the stored market ([None]: the market id
+    is unknown), [accs] the names of the attributes on the requesting account.  The order of the
+    conjuncts is the order of the checks in the Go code (irrelevant for the boolean, kept for
+    readability). *)
 Definition admits (mk : option stored) (accs : list bytes) (a : action) : bool :=
   match mk with
   | None => false
@@ -253,20 +318,26 @@ Definition admits (mk : option stored) (accs : list bytes) (a : action) : bool :
           validate_flat_fee (m_create_com m) cfee
           && m_accepting_commitments m
           && acct_has_req_attrs (s_req_com s) accs
-      | AFillBids bprice sflat cfee =>
+      | AFillBids ok prices sflat cfee =>
           m_accepting_orders m && m_user_settle m
           && acct_has_req_attrs (s_req_ask s) accs
           && validate_flat_fee (m_create_ask m) cfee
           && validate_flat_fee (m_seller_flat m) sflat
-          && is_some (seller_ratio (m_seller_ratios m) (denom_of bprice))
-      | AFillAsks tprice sfees cfee =>
+          && ok
+          && forallb (fun p => is_some (seller_ratio (m_seller_ratios m) (denom_of p))) prices
+      | AFillAsks ok tprice sfees cfee =>
           m_accepting_orders m && m_user_settle m
           && acct_has_req_attrs (s_req_bid s) accs
           && validate_flat_fee (m_create_bid m) cfee
           && validate_buyer_settlement_fee (m_buyer_flat m) (m_buyer_ratios m) tprice sfees
+          && ok
           && is_some (seller_ratio (m_seller_ratios m) (denom_of tprice))
       end
   end.
+
+(** The message handlers: ValidateBasic, then the checks above. *)
+Definition admits_msg (mk : option stored) (accs : list bytes) (a : action) : bool :=
+  msg_basic a && admits mk accs a.
 
 (** The exported Validate* / CanCreate* keeper methods on a market id that may be unknown: an
     unknown id has empty tables, so every such check passes. *)
@@ -274,8 +345,285 @@ Definition empty_market : market :=
   {| m_create_ask := []; m_create_bid := []; m_create_com := []; m_seller_flat := [];
      m_seller_ratios := []; m_buyer_flat := []; m_buyer_ratios := [];
      m_accepting_orders := false; m_user_settle := false; m_accepting_commitments := false;
-     m_req_ask := []; m_req_bid := []; m_req_com := [] |}.
+     m_req_ask := []; m_req_bid := []; m_req_com := []; m_bips := 0; m_interm := "" |}.
 Definition empty_stored : stored :=
   {| s_mkt := empty_market; s_req_ask := []; s_req_bid := []; s_req_com := [] |}.
 Definition tables (mk : option stored) : stored :=
   match mk with Some s => s | None => empty_stored end.
+
+(** ** MsgGovManageFees *)
+Record fee_msg := {
+  fm_add_create_ask : list coin;    fm_rem_create_ask : list coin;
+  fm_add_create_bid : list coin;    fm_rem_create_bid : list coin;
+  fm_add_create_com : list coin;    fm_rem_create_com : list coin;
+  fm_add_seller_flat : list coin;   fm_rem_seller_flat : list coin;
+  fm_add_seller_ratios : list ratio; fm_rem_seller_ratios : list ratio;
+  fm_add_buyer_flat : list coin;    fm_rem_buyer_flat : list coin;
+  fm_add_buyer_ratios : list ratio; fm_rem_buyer_ratios : list ratio;
+  fm_set_bips : Z;                  fm_unset_bips : bool
+}.
+
+Fixpoint mem_str (x : string) (l : list string) : bool :=
+  match l with [] => false | y :: r => String.eqb x y || mem_str x r end.
+Fixpoint nodup_str (l : list string) : bool :=
+  match l with [] => true | x :: r => negb (mem_str x r) && nodup_str r end.
+
+Definition coin_eqb (a b : coin) : bool := String.eqb (fst a) (fst b) && (snd a =? snd b).
+Definition ratio_eqb (a b : ratio) : bool :=      (* FeeRatio.Equals *)
+  String.eqb (r_pd a) (r_pd b) && (r_pa a =? r_pa b) && String.eqb (r_fd a) (r_fd b) && (r_fa a =? r_fa b).
+Definition disjoint_by {A} (eqb : A -> A -> bool) (l1 l2 : list A) : bool :=
+  forallb (fun a => negb (existsb (eqb a) l2)) l1.
+
+(** ValidateFeeOptions: one entry per denom, every amount positive. *)
+Definition validate_fee_options (l : list coin) : bool :=
+  nodup_str (map denom_of l) && forallb coin_pos l.
+(** ValidateAddRemoveFeeOptions: the additions are valid options and no coin (denom and amount)
+    is both added and removed. *)
+Definition validate_add_remove_flats (add rem : list coin) : bool :=
+  validate_fee_options add && disjoint_by coin_eqb add rem.
+(** FeeRatio.Validate *)
+Definition ratio_valid (r : ratio) : bool :=
+  (0 <? r_pa r) && (0 <=? r_fa r) && (negb (String.eqb (r_pd r) (r_fd r)) || (r_fa r <=? r_pa r)).
+(** ValidateSellerFeeRatios: one ratio per price denom, fee denom = price denom, each valid. *)
+Definition validate_seller_ratios (l : list ratio) : bool :=
+  nodup_str (map r_pd l) && forallb (fun r => String.eqb (r_pd r) (r_fd r) && ratio_valid r) l.
+(** ValidateBuyerFeeRatios: one ratio per "price:fee" key, each valid. *)
+Definition buyer_key (r : ratio) : string := (r_pd r ++ ":" ++ r_fd r)%string.
+Definition validate_buyer_ratios (l : list ratio) : bool :=
+  nodup_str (map buyer_key l) && forallb ratio_valid l.
+
+Definition max_bips : Z := 10000.
+
+Definition fee_msg_has_updates (f : fee_msg) : bool :=
+  nonempty (fm_add_create_ask f) || nonempty (fm_rem_create_ask f) ||
+  nonempty (fm_add_create_bid f) || nonempty (fm_rem_create_bid f) ||
+  nonempty (fm_add_seller_flat f) || nonempty (fm_rem_seller_flat f) ||
+  nonempty (fm_add_seller_ratios f) || nonempty (fm_rem_seller_ratios f) ||
+  nonempty (fm_add_buyer_flat f) || nonempty (fm_rem_buyer_flat f) ||
+  nonempty (fm_add_buyer_ratios f) || nonempty (fm_rem_buyer_ratios f) ||
+  nonempty (fm_add_create_com f) || nonempty (fm_rem_create_com f) ||
+  negb (fm_set_bips f =? 0) || fm_unset_bips f.
+
+(** MsgGovManageFeesRequest.ValidateBasic (authority and market id are given correctly). *)
+Definition fee_msg_valid (f : fee_msg) : bool :=
+  fee_msg_has_updates f &&
+  validate_add_remove_flats (fm_add_create_ask f) (fm_rem_create_ask f) &&
+  validate_add_remove_flats (fm_add_create_bid f) (fm_rem_create_bid f) &&
+  validate_add_remove_flats (fm_add_create_com f) (fm_rem_create_com f) &&
+  validate_add_remove_flats (fm_add_seller_flat f) (fm_rem_seller_flat f) &&
+  validate_seller_ratios (fm_add_seller_ratios f) &&
+  disjoint_by ratio_eqb (fm_add_seller_ratios f) (fm_rem_seller_ratios f) &&
+  validate_add_remove_flats (fm_add_buyer_flat f) (fm_rem_buyer_flat f) &&
+  validate_buyer_ratios (fm_add_buyer_ratios f) &&
+  disjoint_by ratio_eqb (fm_add_buyer_ratios f) (fm_rem_buyer_ratios f) &&
+  (0 <=? fm_set_bips f) && (fm_set_bips f <=? max_bips) &&
+  negb (fm_unset_bips f && (0 <? fm_set_bips f)).
+
+(** The keyed store behind a flat-fee table: deleting removes the entry of the denom (whatever its
+    amount), writing replaces the entry of the denom.  updateFlatFees deletes all, then writes all. *)
+Definition del_flat (d : string) (l : list coin) : list coin :=
+  filter (fun c => negb (String.eqb (denom_of c) d)) l.
+Definition set_flat (c : coin) (l : list coin) : list coin := del_flat (denom_of c) l ++ [c].
+Definition update_flats (cur rem add : list coin) : list coin :=
+  fold_left (fun l c => set_flat c l) add (fold_left (fun l c => del_flat (denom_of c) l) rem cur).
+
+(** The same for ratios, keyed by (price denom, fee denom). *)
+Definition same_denoms (a b : ratio) : bool :=
+  String.eqb (r_pd a) (r_pd b) && String.eqb (r_fd a) (r_fd b).
+Definition del_ratio (k : ratio) (l : list ratio) : list ratio :=
+  filter (fun r => negb (same_denoms r k)) l.
+Definition set_ratio (r : ratio) (l : list ratio) : list ratio := del_ratio r l ++ [r].
+Definition update_ratios (cur rem add : list ratio) : list ratio :=
+  fold_left (fun l r => set_ratio r l) add (fold_left (fun l r => del_ratio r l) rem cur).
+
+(** updateCommitmentSettlementBips *)
+Definition update_bips (cur set : Z) (unset : bool) : Z :=
+  let b := if unset then 0 else cur in
+  if 0 <? set then set else b.
+
+(** ValidateBasic, then Keeper.UpdateFees.  A message that fails ValidateBasic changes nothing. *)
+Definition manage_fees (m : market) (f : fee_msg) : market :=
+  if fee_msg_valid f then
+    {| m_create_ask := update_flats (m_create_ask m) (fm_rem_create_ask f) (fm_add_create_ask f);
+       m_create_bid := update_flats (m_create_bid m) (fm_rem_create_bid f) (fm_add_create_bid f);
+       m_create_com := update_flats (m_create_com m) (fm_rem_create_com f) (fm_add_create_com f);
+       m_seller_flat := update_flats (m_seller_flat m) (fm_rem_seller_flat f) (fm_add_seller_flat f);
+       m_seller_ratios := update_ratios (m_seller_ratios m) (fm_rem_seller_ratios f) (fm_add_seller_ratios f);
+       m_buyer_flat := update_flats (m_buyer_flat m) (fm_rem_buyer_flat f) (fm_add_buyer_flat f);
+       m_buyer_ratios := update_ratios (m_buyer_ratios m) (fm_rem_buyer_ratios f) (fm_add_buyer_ratios f);
+       m_accepting_orders := m_accepting_orders m; m_user_settle := m_user_settle m;
+       m_accepting_commitments := m_accepting_commitments m;
+       m_req_ask := m_req_ask m; m_req_bid := m_req_bid m; m_req_com := m_req_com m;
+       m_bips := update_bips (m_bips m) (fm_set_bips f) (fm_unset_bips f);
+       m_interm := m_interm m |}
+  else m.
+Definition manage_fees_stored (s : stored) (f : fee_msg) : stored :=
+  {| s_mkt := manage_fees (s_mkt s) f;
+     s_req_ask := s_req_ask s; s_req_bid := s_req_bid s; s_req_com := s_req_com s |}.
+
+(** ** MsgMarketManageReqAttrs *)
+Record attr_msg := {
+  am_auth : bool;                        (* the admin holds PERMISSION_ATTRIBUTES in the market *)
+  am_ask_add : list string; am_ask_rem : list string;
+  am_bid_add : list string; am_bid_rem : list string;
+  am_com_add : list string; am_com_rem : list string
+}.
+
+Definition attr_msg_has_updates (a : attr_msg) : bool :=
+  nonempty (am_ask_add a) || nonempty (am_ask_rem a) || nonempty (am_bid_add a) ||
+  nonempty (am_bid_rem a) || nonempty (am_com_add a) || nonempty (am_com_rem a).
+
+(** MsgMarketManageReqAttrsRequest.ValidateBasic *)
+Definition attr_msg_valid (a : attr_msg) : bool :=
+  attr_msg_has_updates a &&
+  validate_add_remove_req_attrs (map bytes_of (am_ask_add a)) (map bytes_of (am_ask_rem a)) &&
+  validate_add_remove_req_attrs (map bytes_of (am_bid_add a)) (map bytes_of (am_bid_rem a)) &&
+  validate_add_remove_req_attrs (map bytes_of (am_com_add a)) (map bytes_of (am_com_rem a)).
+
+(** ValidateBasic, MsgServer.MarketManageReqAttrs (permission), Keeper.UpdateReqAttrs: [None] =
+    rejected (nothing changes). *)
+Definition manage_req_attrs (s : stored) (a : attr_msg) : option stored :=
+  if attr_msg_valid a && am_auth a then
+    let '(ask_rem, _) := normalize_req_attrs (map bytes_of (am_ask_rem a)) in
+    let '(ask_add, ok1) := normalize_req_attrs (map bytes_of (am_ask_add a)) in
+    let '(bid_rem, _) := normalize_req_attrs (map bytes_of (am_bid_rem a)) in
+    let '(bid_add, ok2) := normalize_req_attrs (map bytes_of (am_bid_add a)) in
+    let '(com_rem, _) := normalize_req_attrs (map bytes_of (am_com_rem a)) in
+    let '(com_add, ok3) := normalize_req_attrs (map bytes_of (am_com_add a)) in
+    if ok1 && ok2 && ok3 then
+      match update_req_attrs (s_req_ask s) ask_rem ask_add,
+            update_req_attrs (s_req_bid s) bid_rem bid_add,
+            update_req_attrs (s_req_com s) com_rem com_add with
+      | Some ra, Some rb, Some rc =>
+          Some {| s_mkt := s_mkt s; s_req_ask := ra; s_req_bid := rb; s_req_com := rc |}
+      | _, _, _ => None
+      end
+    else None
+  else None.
+
+(** ** Configuration changes as operations on the stored market *)
+Inductive cfg_op :=
+| UFlags (ao us ac : bool)
+| UFees (f : fee_msg)
+| UAttrs (a : attr_msg).
+
+Definition step_stored (s : stored) (o : cfg_op) : stored :=
+  match o with
+  | UFlags ao us ac => set_flags_stored s ao us ac
+  | UFees f => manage_fees_stored s f
+  | UAttrs a => match manage_req_attrs s a with Some s' => s' | None => s end
+  end.
+
+(** ** Fee quotes *)
+(** QueryServer.OrderFeeCalc: (creation fee options, settlement flat fee options, settlement ratio
+    fee options); [None] = the query fails. *)
+Definition quote := (list coin * list coin * list coin)%type.
+
+Definition quote_ask (mk : option stored) (price : coin) : option quote :=
+  match mk with
+  | None => None
+  | Some s =>
+      let m := s_mkt s in
+      match seller_ratio (m_seller_ratios m) (denom_of price) with
+      | None => None
+      | Some None => Some (m_create_ask m, m_seller_flat m, [])
+      | Some (Some r) =>
+          match apply_to_loosely (r_pa r) (r_fa r) (amt_of price) with
+          | None => None
+          | Some x => Some (m_create_ask m, m_seller_flat m, [(r_fd r, x)])
+          end
+      end
+  end.
+
+(** calcBuyerSettlementRatioFeeOptions *)
+Definition buyer_ratio_options (rs : list ratio) (price : coin) : option (list coin) :=
+  let for_pd := filter (fun r => String.eqb (r_pd r) (denom_of price)) rs in
+  match for_pd with
+  | [] => if nonempty rs then None else Some []
+  | _ =>
+      let opts := flat_map (fun r => match apply_to_loosely (r_pa r) (r_fa r) (amt_of price) with
+                                     | Some x => [(r_fd r, x)]
+                                     | None => []
+                                     end) for_pd in
+      match opts with [] => None | _ => Some opts end
+  end.
+
+Definition quote_bid (mk : option stored) (price : coin) : option quote :=
+  match mk with
+  | None => None
+  | Some s =>
+      let m := s_mkt s in
+      match buyer_ratio_options (m_buyer_ratios m) price with
+      | None => None
+      | Some opts => Some (m_create_bid m, m_buyer_flat m, opts)
+      end
+  end.
+
+(** sdk.NewCoins of an optional flat and an optional ratio fee coin: zero coins dropped, one coin
+    when the denoms coincide, ascending denoms otherwise. *)
+Definition drop_zero (o : option coin) : option coin :=
+  match o with Some c => if amt_of c =? 0 then None else Some c | None => None end.
+Definition offer (f x : option coin) : list coin :=
+  match drop_zero f, drop_zero x with
+  | None, None => []
+  | Some c, None | None, Some c => [c]
+  | Some c1, Some c2 =>
+      if String.eqb (denom_of c1) (denom_of c2) then [(denom_of c1, amt_of c1 + amt_of c2)]
+      else if String.ltb (denom_of c1) (denom_of c2) then [c1; c2] else [c2; c1]
+  end.
+
+(** Keeper.CalculateCommitmentSettlementFee (CommitmentSettlementFeeCalc query, and the fee step of
+    MsgMarketCommitmentSettle).  [fee_denom] is the chain's fee denom, [navs] the NAVs given in
+    the request as (assets denom, price denom, assets amount, price amount) (no NAV is stored in
+    the marker / metadata modules for these denoms), [total] the sum of the inputs, one coin per
+    denom.  [None] = error; [Some None] = no fee (no bips, or no inputs); [Some (Some x)] = x of
+    the fee denom. *)
+Definition nav := (string * string * Z * Z)%type.
+Fixpoint lookup_nav (navs : list nav) (ad pd : string) : option (Z * Z) :=
+  match navs with
+  | [] => None
+  | (a, p, aa, pa) :: r => if String.eqb a ad && String.eqb p pd then Some (aa, pa) else lookup_nav r ad pd
+  end.
+
+Fixpoint other_inputs (navs : list nav) (conv fee_denom : string) (total : list coin)
+  : option (list (Z * Z * Z)) :=
+  match total with
+  | [] => Some []
+  | (d, a) :: r =>
+      match other_inputs navs conv fee_denom r with
+      | None => None
+      | Some l =>
+          if String.eqb d fee_denom || String.eqb d conv then Some l
+          else match lookup_nav navs d conv with
+               | None => None
+               | Some (aa, pa) => Some ((a, pa, aa) :: l)
+               end
+      end
+  end.
+
+Definition amount_of (d : string) (l : list coin) : Z :=
+  match get_flat l d with Some a => a | None => 0 end.
+
+Definition commitment_quote (mk : option stored) (fee_denom : string) (navs : list nav)
+           (total : list coin) : option (option Z) :=
+  let m := s_mkt (tables mk) in
+  if m_bips m =? 0 then Some None
+  else if String.eqb (m_interm m) "" then None
+  else
+    let conv := m_interm m in
+    match (if String.eqb conv fee_denom then Some (1, 1) else lookup_nav navs conv fee_denom) with
+    | None => None
+    | Some (tfa, tfp) =>
+        match total with
+        | [] => Some None
+        | _ =>
+            match other_inputs navs conv fee_denom total with
+            | None => None
+            | Some others =>
+                Some (Some (commitment_fee
+                  {| ci_fee := amount_of fee_denom total;
+                     ci_conv := if String.eqb conv fee_denom then 0 else amount_of conv total;
+                     ci_others := others; ci_tfp := tfp; ci_tfa := tfa; ci_bips := m_bips m |}))
+            end
+        end
+    end.
